@@ -301,4 +301,14 @@ var Controls = []Control{
 	{"C08", "type marks equal on the family name when the extension is empty", "errorspb/markers.go", `return m\.FamilyName == o\.FamilyName && m\.Extension == o\.Extension`, `return m.FamilyName == o.FamilyName && (m.Extension == "" || m.Extension == o.Extension)`, "R-MARK-EQUALS"},
 	{"C08", "type marks compared with an early return", "errorspb/markers.go", `return m\.FamilyName == o\.FamilyName && m\.Extension == o\.Extension`, "if m.FamilyName != o.FamilyName {\n\t\treturn false\n\t}\n\treturn m.Extension == o.Extension", CleanVariant},
 	{"C12", "stack trace probed before the layer's own safe details", "errbase/safe_details.go", `\tif sd, ok := err\.\(SafeDetailer\); ok \{\n\t\treturn sd\.SafeDetails\(\)\n\t\}\n(.*?)\treturn nil\n\}\n\n// SafeDetailPayload`, "${1}\tif sd, ok := err.(SafeDetailer); ok {\n\t\treturn sd.SafeDetails()\n\t}\n\treturn nil\n}\n\n// SafeDetailPayload", "R-DETAILS-ORDER"},
+	// round 12
+	{"C15", "reversal stops one pair short", "report/report.go", `i < len\(ex\)/2`, "i < (len(ex)-1)/2", "R-REVERSE"},
+	{"C15", "reversal also swaps the middle element with itself", "report/report.go", `i < len\(ex\)/2`, "i < (len(ex)+1)/2", CleanVariant},
+	{"C17", "module major version stripped from the package path of live types", "errbase/encode.go", `\tpkgPath := t\.PkgPath\(\)\n\tif pkgPath != "" \{\n\t\treturn pkgPath\n`, "\tpkgPath := t.PkgPath()\n\tif pkgPath != \"\" {\n\t\treturn strings.TrimSuffix(pkgPath, \"/v2\")\n", "R-TYPENAME-RAW"},
+	{"C17", "package path computed inline", "errbase/encode.go", `\tpkgPath := getPkgPath\(t\)\n\treturn makeTypeKey\(pkgPath, t\.String\(\)\)`, "\tpkgPath := t.PkgPath()\n\tif pkgPath == \"\" {\n\t\tpkgPath = getPkgPath(t)\n\t}\n\treturn makeTypeKey(pkgPath, t.String())", CleanVariant},
+	{"C04", "unknown wrapper's details rebuilt without the mark extension", "errbase/decode.go", `\t\tdetails:     enc\.Details,\n\t\tmessageType: MessageType\(enc\.MessageType\),`, "\t\tdetails: errorspb.EncodedErrorDetails{OriginalTypeName: enc.Details.OriginalTypeName, ErrorTypeMark: errorspb.ErrorTypeMark{FamilyName: enc.Details.ErrorTypeMark.FamilyName}, ReportablePayload: enc.Details.ReportablePayload, FullDetails: enc.Details.FullDetails},\n\t\tmessageType: MessageType(enc.MessageType),", "R-OPAQUE-TRANSPORT"},
+	{"C04", "unknown wrapper's details rebuilt member by member, all of them", "errbase/decode.go", `\t\tdetails:     enc\.Details,\n\t\tmessageType: MessageType\(enc\.MessageType\),`, "\t\tdetails: errorspb.EncodedErrorDetails{OriginalTypeName: enc.Details.OriginalTypeName, ErrorTypeMark: enc.Details.ErrorTypeMark, ReportablePayload: enc.Details.ReportablePayload, FullDetails: enc.Details.FullDetails},\n\t\tmessageType: MessageType(enc.MessageType),", CleanVariant},
+	{"C03", "redactable output cut to the precision after the markers are placed", "errbase/format_error.go", `\t\tsp\.Print\(redact\.RedactableBytes\(p\.finalBuf\.Bytes\(\)\)\)`, "\t\tout := p.finalBuf.Bytes()\n\t\tif prec, ok := p.Precision(); ok && prec >= 0 && prec < len(out) {\n\t\t\tout = out[:prec]\n\t\t}\n\t\tsp.Print(redact.RedactableBytes(out))", "R-REDACTABLE-OPS"},
+	{"C03", "redactable output printed through a local", "errbase/format_error.go", `\t\tsp\.Print\(redact\.RedactableBytes\(p\.finalBuf\.Bytes\(\)\)\)`, "\t\tout := p.finalBuf.Bytes()\n\t\tout = out[:]\n\t\tsp.Print(redact.RedactableBytes(out))", CleanVariant},
+	{"C20", "details attached to the status FromError prepared", "grpc/middleware/server.go", `\t\tst = status\.New\(code, strings\.ToValidUTF8\(err\.Error\(\), "\\uFFFD"\)\)\n`, "\t\tif code != codes.Unknown {\n\t\t\tst = status.New(code, strings.ToValidUTF8(err.Error(), \"\\uFFFD\"))\n\t\t}\n", "R-GRPC-FLOW"},
 }
